@@ -199,7 +199,7 @@ pub fn gen_c01(rng: &mut Prng, run: u64, t: &Tier) -> Vec<Ev> {
                 None
             };
             let (pt, aad) = msg(rng, true);
-            ev.push(Ev::SingleShotSeal { c: 0, cfg: cfg.clone(), kr: 0, ks, rng: rng_script(rng, kem), pt, aad, inplace: rng.chance(1, 2) });
+            ev.push(Ev::SingleShotSeal { c: 0, cfg: cfg.clone(), kr: 0, ks, ks_pub: None, rng: rng_script(rng, kem), pt, aad, inplace: rng.chance(1, 2) });
             ev.push(Ev::SetupR { c: 0, cfg: cfg.clone(), kr: 0, ks, enc: EncSrc::Of(0), model_only: false });
             let api = *rng.pick(&[OpenApi::SingleShot, OpenApi::SingleShotInPlace, OpenApi::Alloc, OpenApi::InPlace]);
             ev.push(Ev::Deliver { r: 0, from: 0, rec: RecRef::Next, fault: Fault::None, api });
@@ -297,7 +297,7 @@ pub fn gen_c02(rng: &mut Prng, run: u64, _t: &Tier) -> Vec<Ev> {
             None
         };
         let (pt, aad) = msg(rng, false);
-        ev.push(Ev::SingleShotSeal { c: 4, cfg: cfg.clone(), kr: 20, ks, rng: rng_script(rng, kem), pt, aad, inplace: rng.chance(1, 2) });
+        ev.push(Ev::SingleShotSeal { c: 4, cfg: cfg.clone(), kr: 20, ks, ks_pub: None, rng: rng_script(rng, kem), pt, aad, inplace: rng.chance(1, 2) });
         ev.push(Ev::SetupR { c: 4, cfg: cfg.clone(), kr: 20, ks, enc: EncSrc::Of(4), model_only: true });
         ev.push(Ev::Deliver { r: 4, from: 4, rec: RecRef::Next, fault: Fault::None, api: OpenApi::Alloc });
         for api in [OpenApi::SingleShot, OpenApi::SingleShotInPlace] {
@@ -549,6 +549,19 @@ pub fn gen_history(rng: &mut Prng, run: u64, o: &HistOpts) -> Vec<Ev> {
                 _ => {
                     ev.push(Ev::Jump { c, role: Role::S, to });
                     ev.push(Ev::Jump { c, role: Role::R, to });
+                }
+            }
+            if rng.chance(1, 2) {
+                // nothing sealed before the jump may be accepted at the new position, nor once the
+                // receiver has moved a little further
+                for i in 0..6 {
+                    ev.push(Ev::Deliver { r: c, from: c, rec: RecRef::Index(i), fault: Fault::None, api: open_api(rng) });
+                }
+                let (pt, aad) = msg(rng, false);
+                ev.push(Ev::Seal { c, pt, aad, inplace: rng.chance(1, 2) });
+                ev.push(Ev::Deliver { r: c, from: c, rec: RecRef::Next, fault: Fault::None, api: open_api(rng) });
+                for i in 0..6 {
+                    ev.push(Ev::Deliver { r: c, from: c, rec: RecRef::Index(i), fault: Fault::None, api: open_api(rng) });
                 }
             }
             after_special = true;
@@ -1196,7 +1209,7 @@ pub fn gen_c10(rng: &mut Prng, run: u64, _t: &Tier) -> Vec<Ev> {
             ev.push(Ev::KemProbe { kem, kr: 2, ks: None, rng: rng_script(rng, kem) });
             ev.push(Ev::KemProbe { kem, kr: 2, ks: Some(1), rng: rng_script(rng, kem) });
             let (pt, aad) = msg(rng, false);
-            ev.push(Ev::SingleShotSeal { c: 1, cfg: cfg.clone(), kr: 2, ks, rng: rng_script(rng, kem), pt, aad, inplace: rng.chance(1, 2) });
+            ev.push(Ev::SingleShotSeal { c: 1, cfg: cfg.clone(), kr: 2, ks, ks_pub: None, rng: rng_script(rng, kem), pt, aad, inplace: rng.chance(1, 2) });
         }
         1 => {
             ev.push(Ev::SetupR { c: 0, cfg: cfg.clone(), kr: 0, ks, enc: EncSrc::Raw(b(hostile.clone())), model_only: false });
@@ -1334,6 +1347,14 @@ pub fn gen_c12(rng: &mut Prng, run: u64, _t: &Tier) -> Vec<Ev> {
         v.resize(size + extra, 0);
         ev.push(Ev::DecodeProbe { suite, kind, bytes: b(v) });
     }
+    if kem.is_nist() && kind == Kind::Sk {
+        // right-length scalars at and beyond the group order: rejected, never reduced
+        let cv = math::curve(kem);
+        let one = math::U::from_u64(1);
+        for v in [cv.n.to_be(nsk), cv.n.add(&one).0.to_be(nsk), cv.n.sub(&one).0.to_be(nsk), vec![0xFFu8; nsk], vec![0u8; nsk], one.to_be(nsk)] {
+            ev.push(Ev::DecodeProbe { suite, kind, bytes: b(v) });
+        }
+    }
     // X25519: every 32-byte string is an accepted public / encapsulated key and must come back
     // byte-identical, in particular the non-canonical ones (u >= p, bit 255 set, small order)
     if kem == KemId::X25519 && kind != Kind::Tag {
@@ -1455,7 +1476,7 @@ pub fn gen_c13(rng: &mut Prng, run: u64, t: &Tier) -> Vec<Ev> {
             _ => {
                 ev.push(Ev::SingleShotOpenRaw { cfg: cfg.clone(), kr: 0, ks, enc: EncSrc::Raw(b(hostile.clone())), ct: b(rng.bytes(20)), aad: b(vec![]), tag: if rng.chance(1, 2) { Some(b(rng.bytes(16))) } else { None } });
                 let (pt, aad) = msg(rng, false);
-                ev.push(Ev::SingleShotSeal { c: 3, cfg: cfg.clone(), kr: 8, ks, rng: rng_script(rng, kem), pt, aad, inplace: rng.chance(1, 2) });
+                ev.push(Ev::SingleShotSeal { c: 3, cfg: cfg.clone(), kr: 8, ks, ks_pub: None, rng: rng_script(rng, kem), pt, aad, inplace: rng.chance(1, 2) });
             }
         }
     }
@@ -1534,7 +1555,15 @@ pub fn gen_c14(rng: &mut Prng, run: u64, _t: &Tier) -> Vec<Ev> {
         kr = 2;
     }
     let (pt, aad) = msg(rng, true);
-    ev.push(Ev::SingleShotSeal { c: 0, cfg: cfg.clone(), kr, ks, rng: rng_script(rng, kem), pt, aad, inplace: rng.chance(1, 2) });
+    // now and then the (never validated) identity pair is mismatched: the claimed public key is
+    // another key's; single-shot and composed forms must still agree byte for byte
+    let ks_pub = if mode.has_auth() && rng.chance(1, 6) {
+        ev.push(Ev::Keygen { k: 5, kem, ikm: ikm(rng) });
+        Some(5)
+    } else {
+        None
+    };
+    ev.push(Ev::SingleShotSeal { c: 0, cfg: cfg.clone(), kr, ks, ks_pub, rng: rng_script(rng, kem), pt, aad, inplace: rng.chance(1, 2) });
     // receiver: single-shot open vs setup_receiver + open, on valid traffic and on every failure path
     let enc = if kem == KemId::X25519 && rng.chance(1, 6) { EncSrc::Raw(b(rng.pick(&math::x25519_small_order()).clone())) } else { EncSrc::Of(0) };
     ev.push(Ev::SetupR { c: 0, cfg: cfg.clone(), kr: 0, ks, enc: enc.clone(), model_only: false });
@@ -1622,7 +1651,7 @@ pub fn gen_c16(rng: &mut Prng, run: u64, _t: &Tier) -> Vec<Ev> {
         exports: rng.chance(1, 2),
         teardown: true,
         restart: true,
-        single_shot: false,
+        single_shot: true,
         shim_ok: true,
         aeads: &ALL_AEADS,
         export_lens: vec![],
